@@ -491,6 +491,9 @@ def _parse_color_88(desc: str) -> int | None:
     83
     """
     if len(desc) == 7:
+        if not (desc.startswith("#") and all(digit in "0123456789abcdefABCDEF" for digit in desc[1:])):
+            # only '#rrggbb' is reduced to '#rgb'
+            return None
         desc = desc[0:2] + desc[3] + desc[5]
     if len(desc) > 4:
         # keep the length within reason before parsing
